@@ -662,4 +662,7 @@ def show(v):
         return "Ok(%s)" % show(v[2]) if v[1] else "Err(..)"
     if op == 21:
         return "[%s, %s]" % (show(v[1]), show(v[2]))
+    if op == 15:
+        return "<%s>[%s]" % (["textarea", "style", "script", "noscript"][v[1]], ", ".join(
+            repr(C.show_bytes(x[1])) if x[0] == 1 else ["()", "None", "vec![]"][x[1]] for x in v[3]))
     return c05._show(v)
